@@ -36,6 +36,16 @@ pub struct Params {
     pub faults: bool,
     /// attach subscribers and check delivery (C06)
     pub subscribers: bool,
+    /// how many crash + restart rounds one execution may contain (bounded by the crash budget as well)
+    #[serde(default = "one")]
+    pub max_crashes: usize,
+    /// write issued by the incarnation started after the second crash
+    #[serde(default)]
+    pub after_restart2: Vec<(i64, u8)>,
+}
+
+fn one() -> usize {
+    1
 }
 
 static DIR_CTR: AtomicU64 = AtomicU64::new(0);
@@ -77,6 +87,7 @@ pub struct IngestScenario {
     pub shared: Arc<Mutex<Shared>>,
     pub ticks_granted: usize,
     pub crashed: bool,
+    pub crashes: usize,
     pub incarnation: usize,
     /// facts captured at the crash: persisted flushed_seq, WAL seq of every id
     pub flushed_at_crash: Option<u64>,
@@ -99,6 +110,7 @@ impl IngestScenario {
             shared: Arc::new(Mutex::new(Shared::default())),
             ticks_granted: 0,
             crashed: false,
+            crashes: 0,
             incarnation: 0,
             flushed_at_crash: None,
             seq_of_id: BTreeMap::new(),
@@ -255,7 +267,7 @@ impl Scenario for IngestScenario {
 
     async fn step_check(&mut self, _ctl: &Ctl) -> Vec<Violation> {
         // who persisted the flushed mark: the task that ran in the step during which the file changed
-        if !self.crashed {
+        {
             let v = load_flushed_seq(&self.dir).unwrap_or(0);
             if v != self.mark_value {
                 self.mark_value = v;
@@ -276,7 +288,7 @@ impl Scenario for IngestScenario {
     }
 
     fn extras(&self, _ctl: &Ctl) -> Vec<Extra> {
-        if self.p.crash && !self.crashed && self.shared.lock().unwrap().recovery_done {
+        if self.p.crash && self.crashes < self.p.max_crashes.max(1) && self.shared.lock().unwrap().recovery_done {
             vec![Extra { label: "CRASH".into(), cost: Cost { crash: 1, ..Cost::ZERO } }]
         } else {
             vec![]
@@ -288,6 +300,7 @@ impl Scenario for IngestScenario {
         ctl.settle().await;
         self.shared.lock().unwrap().ingester = None;
         self.crashed = true;
+        self.crashes += 1;
         // facts for the violation signature: what the disk says at the crash
         self.flushed_at_crash = load_flushed_seq(&self.dir).ok();
         if let Ok(wal) = WriteAheadLog::open(WalConfig { wal_dir: self.dir.clone(), max_segment_size: self.p.max_segment_size, sync_mode: WalSyncMode::EveryWrite, enabled: true }).await {
@@ -308,7 +321,7 @@ impl Scenario for IngestScenario {
             let mut s = self.shared.lock().unwrap();
             s.recovery_done = false;
         }
-        let after = self.p.after_restart.clone();
+        let after = if self.crashes <= 1 { self.p.after_restart.clone() } else { self.p.after_restart2.clone() };
         self.start_incarnation(ctl, if after.is_empty() { vec![] } else { vec![after] }, false);
     }
 
@@ -430,13 +443,29 @@ pub fn plans(tier: &str) -> Vec<(Params, Cost)> {
         crash: false,
         faults: false,
         subscribers: false,
+        max_crashes: 1,
+        after_restart2: vec![],
     };
     let mut v = vec![
         (Params { name: "faults".into(), faults: true, ..base.clone() }, Cost { preempt: 1, fault: if t { 2 } else { 1 }, ..Cost::ZERO }),
         (Params { name: "crash".into(), crash: true, ..base.clone() }, Cost { preempt: 2, crash: 1, ..Cost::ZERO }),
         (Params { name: "fault+crash".into(), crash: true, faults: true, ..base.clone() }, Cost { preempt: if t { 1 } else { 0 }, fault: 1, crash: 1, ..Cost::ZERO }),
     ];
+    // crash - restart - crash: a multi-segment log (rotation on every entry), one writer, a write after the first
+    // restart; every placement of two crashes (recovery itself may be crashed)
+    v.push((
+        Params { name: "crash-restart-crash/rotate-every-entry".into(), crash: true, max_crashes: 2, writers: vec![vec![(1, 0), (2, 0), (3, 0), (4, 0)]], after_restart: vec![(5, 0)], max_segment_size: 1, ticks: 0, hooks: vec!["write:after_wal_append".to_string(), "flush:after_register".to_string(), "flush:before_persist".to_string()], ..base.clone() },
+        Cost { preempt: 0, crash: 2, ..Cost::ZERO },
+    ));
+    v.push((
+        Params { name: "crash-restart-crash/threshold-3/two-entries-per-segment".into(), crash: true, max_crashes: 2, writers: vec![vec![(1, 0), (2, 0), (3, 0), (4, 0), (5, 0)]], after_restart: vec![], after_restart2: vec![(6, 0)], flush_row_count: 3, max_segment_size: 2 * 700, ticks: 0, hooks: vec!["write:after_wal_append".to_string(), "flush:before_persist".to_string()], ..base.clone() },
+        Cost { preempt: 0, crash: 2, ..Cost::ZERO },
+    ));
     if t {
+        v.push((
+            Params { name: "crash-restart-crash/2-writers/rotate-every-entry".into(), crash: true, max_crashes: 2, writers: vec![vec![(1, 0), (3, 0)], vec![(2, 0), (4, 0)]], after_restart: vec![(5, 0)], after_restart2: vec![(6, 0)], max_segment_size: 1, ticks: 1, ..base.clone() },
+            Cost { preempt: 1, crash: 2, ..Cost::ZERO },
+        ));
         v.push((Params { name: "crash/all-hooks".into(), crash: true, hooks: hooks(true), ..base.clone() }, Cost { preempt: 2, crash: 1, ..Cost::ZERO }));
         v.push((Params { name: "crash/3-preemptions".into(), crash: true, ..base.clone() }, Cost { preempt: 3, crash: 1, ..Cost::ZERO }));
         v.push((
